@@ -645,6 +645,11 @@ pub mod implementations {
                 "The `printn` instruction should not be used. Favor the standard library instead."
             );
 
+            #[cfg(mscript_verif)]
+            if crate::verif::typed_print() {
+                print!("«{}» ", crate::verif::kind_of(first));
+            }
+
             print!("{first}");
             let operating_stack = ctx.get_local_operating_stack();
 
